@@ -3,8 +3,11 @@
 
    G, dist, in_rect are the opaque geometry (geojson Distance, "rectangle of o intersects
    geo.RectFromCenter(centre of c, r)").  Hr is the trusted, sampled hypothesis that the search
-   rectangle contains the circle.  col is the roam collection in the order the R-tree search
-   visits it (any order), with unique ids; old is the previous version of the moved object. *)
+   rectangle contains the circle; it is only assumed for radii >= rmin, because
+   geo.RectFromCenter collapses to the centre point below about 0.28 m (open finding
+   C20-tiny-radius, c20_tiny_radius_refuted).  col is the roam collection in the order the
+   R-tree search visits it (any order), with unique ids; old is the previous version of the
+   moved object. *)
 From Coq Require Import List ZArith Sorting.Sorted.
 From T38 Require Import Base.Bytes Model.Glob Model.Roam Proofs.RoamProofs.
 Import ListNotations.
@@ -13,7 +16,8 @@ Section C20.
   Variable G : Type.
   Variable dist : G -> G -> Z.
   Variable in_rect : G -> Z -> G -> bool.
-  Hypothesis Hr : forall c r o, (dist c o <= r)%Z -> in_rect c r o = true.
+  Variable rmin : Z.
+  Hypothesis Hr : forall c r o, (rmin <= r)%Z -> (dist c o <= r)%Z -> in_rect c r o = true.
 
   (* the transcribed loop always terminates within its fuel *)
   Theorem c20_total : forall col sw obj old,
@@ -21,9 +25,11 @@ Section C20.
     exists near far, fence_match_roam G dist in_rect col sw obj old = RoamDone near far.
   Proof. exact (roam_total G dist in_rect). Qed.
 
-  (* "nearby" = exactly the other pattern-matching objects within the radius of the new position,
+  (* partial: for radii >= rmin (what is missing: radii below rmin, where Hr is false).
+     "nearby" = exactly the other pattern-matching objects within the radius of the new position,
      minus, under NODWELL, those within the radius of the previous position; metres = dist new o *)
-  Theorem c20_nearby_exact : forall col sw obj old near far,
+  Theorem c20_nearby_exact_partial : forall col sw obj old near far,
+    (rmin <= rs_meters sw)%Z ->
     NoDup (map o_id col) -> same_id G obj old ->
     fence_match_roam G dist in_rect col sw obj old = RoamDone near far ->
     forall m, In m near <->
@@ -31,11 +37,12 @@ Section C20.
         (o_id o <> o_id obj /\ (dist (o_geo obj) (o_geo o) <= rs_meters sw)%Z /\ id_match sw (o_id o) = true) /\
         (rs_nodwell sw = true -> forall ob, old = Some ob -> ~ (dist (o_geo ob) (o_geo o) <= rs_meters sw)%Z) /\
         m = {| m_id := o_id o; m_geo := o_geo o; m_meters := dist (o_geo obj) (o_geo o) |}.
-  Proof. exact (roam_nearby_exact G dist in_rect Hr). Qed.
+  Proof. exact (roam_nearby_exact G dist in_rect rmin Hr). Qed.
 
   (* "faraway" = exactly those within the radius of the previous position and not of the new one;
      metres = distance to the new position *)
-  Theorem c20_faraway_exact : forall col sw obj old near far,
+  Theorem c20_faraway_exact_partial : forall col sw obj old near far,
+    (rmin <= rs_meters sw)%Z ->
     NoDup (map o_id col) -> same_id G obj old ->
     fence_match_roam G dist in_rect col sw obj old = RoamDone near far ->
     forall m, In m far <->
@@ -43,7 +50,7 @@ Section C20.
         (o_id o <> o_id obj /\ (dist (o_geo ob) (o_geo o) <= rs_meters sw)%Z /\ id_match sw (o_id o) = true) /\
         ~ (dist (o_geo obj) (o_geo o) <= rs_meters sw)%Z /\
         m = {| m_id := o_id o; m_geo := o_geo o; m_meters := dist (o_geo o) (o_geo obj) |}.
-  Proof. exact (roam_faraway_exact G dist in_rect Hr). Qed.
+  Proof. exact (roam_faraway_exact G dist in_rect rmin Hr). Qed.
 
   (* both lists are ordered by (metres, id) and name every neighbour once *)
   Theorem c20_sorted : forall col sw obj old near far,
@@ -54,8 +61,8 @@ Section C20.
   Proof. exact (roam_sorted G dist in_rect). Qed.
 End C20.
 Print Assumptions c20_total.
-Print Assumptions c20_nearby_exact.
-Print Assumptions c20_faraway_exact.
+Print Assumptions c20_nearby_exact_partial.
+Print Assumptions c20_faraway_exact_partial.
 Print Assumptions c20_sorted.
 
 (* The pinned tree's radius test (an object measured against itself) reports a neighbour outside
@@ -66,10 +73,24 @@ Theorem c20_pinned_refuted :
 Proof. exact Plane.pinned_reports_outside_radius. Qed.
 Print Assumptions c20_pinned_refuted.
 
+(* Open finding C20-tiny-radius: when the search rectangle collapses to the centre point (as
+   geo.RectFromCenter does for radii below about 0.28 m) a pattern-matching neighbour within the
+   radius is not reported: the restriction to radii >= rmin cannot be dropped.  Real-server
+   witness: SETCHAN c NEARBY m FENCE ROAM m * 0.2 ; SET m a POINT 10 10 ; SET m b POINT 10.0000009 10
+   (0.10 m apart) -> no message. *)
+Theorem c20_tiny_radius_refuted :
+  fence_match_roam Plane.P Plane.pdist Plane.prect_degenerate Plane.col_tiny Plane.sw_tiny (Plane.mk 97 0 0) None
+    = RoamDone [] [] /\
+  In (Plane.mk 98 3 4) Plane.col_tiny /\
+  (Plane.pdist (0, 0)%Z (3, 4)%Z <= rs_meters Plane.sw_tiny)%Z /\
+  id_match Plane.sw_tiny (Plane.b 98) = true.
+Proof. exact Plane.tiny_radius_misses. Qed.
+Print Assumptions c20_tiny_radius_refuted.
+
 (* non-vacuity: Hr is satisfiable by a non-trivial geometry (the plane, bounding square of the
    disc), on which the model reports the neighbour inside the disc, drops the one in the corner of
    the square, and reports the one left behind as faraway *)
-Example c20_Hr_satisfiable : forall c r o, (Plane.pdist c o <= r)%Z -> Plane.prect c r o = true.
+Example c20_Hr_satisfiable : forall c r o, (0 <= r)%Z -> (Plane.pdist c o <= r)%Z -> Plane.prect c r o = true.
 Proof. exact Plane.prect_contains_disc. Qed.
 Example c20_nonvacuous :
   NoDup (map o_id Plane.col) /\
